@@ -109,3 +109,66 @@ pub mod hint_round_ops {
             .to_bits()
     }
 }
+
+/// The interpreter's value stack on a caller supplied backing buffer.
+pub mod hint_value_stack {
+    use super::super::value_stack::ValueStack;
+    use raw::tables::glyf::bytecode::Decoder;
+
+    /// Runs `ops` on a `ValueStack::new(buf, is_pedantic)` and reports the
+    /// outcome of each operation: the returned value(s) or the debug name of
+    /// the error kind.
+    ///
+    /// `(0, v)` push, `(1, _)` pop, `(2, _)` peek, `(3, _)` dup, `(4, _)` swap,
+    /// `(5, _)` clear, `(6, _)` copy_index, `(7, _)` move_index, `(8, _)` roll,
+    /// `(9, _)` len, `(10, _)` values, `(11, n)` push_inline_operands with the
+    /// next `n` entries `(_, word)` taken as the words of an `NPUSHW`
+    /// instruction. Anything else ends the run.
+    pub fn run(
+        buf: &mut [i32],
+        is_pedantic: bool,
+        ops: &[(u8, i32)],
+    ) -> alloc::vec::Vec<Result<alloc::vec::Vec<i32>, alloc::string::String>> {
+        use alloc::{format, vec, vec::Vec};
+        let mut stack = ValueStack::new(buf, is_pedantic);
+        let mut out = Vec::new();
+        let mut i = 0;
+        while i < ops.len() {
+            let (op, arg) = ops[i];
+            i += 1;
+            let res = match op {
+                0 => stack.push(arg).map(|_| vec![]),
+                1 => stack.pop().map(|v| vec![v]),
+                2 => Ok(stack.peek().into_iter().collect()),
+                3 => stack.dup().map(|_| vec![]),
+                4 => stack.swap().map(|_| vec![]),
+                5 => {
+                    stack.clear();
+                    Ok(vec![])
+                }
+                6 => stack.copy_index().map(|_| vec![]),
+                7 => stack.move_index().map(|_| vec![]),
+                8 => stack.roll().map(|_| vec![]),
+                9 => Ok(vec![stack.len() as i32]),
+                10 => Ok(stack.values().to_vec()),
+                11 => {
+                    let n = (arg.max(0) as usize).min(255).min(ops.len() - i);
+                    let mut code = vec![0x41u8, n as u8];
+                    for (_, word) in &ops[i..i + n] {
+                        code.extend_from_slice(&(*word as i16).to_be_bytes());
+                    }
+                    i += n;
+                    match Decoder::new(&code, 0).decode() {
+                        Some(Ok(ins)) => stack
+                            .push_inline_operands(&ins.inline_operands)
+                            .map(|_| vec![]),
+                        _ => break,
+                    }
+                }
+                _ => break,
+            };
+            out.push(res.map_err(|e| format!("{e:?}")));
+        }
+        out
+    }
+}
